@@ -200,7 +200,7 @@ class CLeaf:
         return res
 
 
-UF_DECLS = "".join(f"(declare-fun uf_{n} (Real) Real)\n" for n in ("sin", "cos", "exp", "log", "sqrt", "asin", "acos", "atan", "sinh", "cosh"))
+UF_DECLS = "".join(f"(declare-fun uf_{n} (Real) Real)\n" for n in ("sin", "cos", "exp", "log", "sqrt", "asin", "acos", "atan", "sinh", "cosh")) + "(declare-fun uf_atan2 (Real Real) Real)\n"
 
 
 def load_leaf(path, extra_decls="", fp=False):
